@@ -106,6 +106,9 @@ def build_cases(ctx):
     # a typical table-building command, then every modify / delete / view command (exhaustive); the ones that
     # address the route just built are always part of the quick tier
     mods = gen(ctx, 1, 0, "typical", "mods")
+    if not q:   # thorough: exhaustive behind the routes as the driver renders them, sampled behind the all-pickle routes
+        mix["pickle_route_then_modify"] = add([h for h in mods if h["cmds"][0].get("pk")], "modspk", 2)
+        mods = [h for h in mods if not h["cmds"][0].get("pk")]
     mix["typical_then_modify"] = add(mods, "mods", 1 if q else None, ctx.pick(150, None),
                                      keep=lambda h: h["cmds"][0]["op"] in ("addRoute", "addAgg") and h["cmds"][1]["val"] == "typical"
                                      and h["cmds"][1]["n"] == 0 and h["cmds"][1]["key"] in ("k1", "-")
@@ -119,6 +122,9 @@ def build_cases(ctx):
     # a consistentHashing route shrunk to one destination, then every delete (incl. the one that would empty it)
     mix["hashing_route_shrunk_then_delete"] = add(gen(ctx, 1, 0, "chdel", "api"), "chdel")
     items1 = gen(ctx, 0, 1, "typical", "none")
+    if not q:
+        mix["pickle_route_then_item"] = add([h for h in items1 if h["cmds"][0].get("pk")], "item1pk", 2)
+        items1 = [h for h in items1 if not h["cmds"][0].get("pk")]
     mix["typical_then_item"] = add(items1, "item1", 2 if q else None)
     if not q:
         items2 = gen(ctx, 0, 2, "empty", "none")
